@@ -112,12 +112,15 @@ def generate(tier, rng):
     else:
       trees = [[rng.choice([dyadic(rng), rng.uniform(-3, 3), rng.gauss(0, 100)]) for _ in range(k)] for _ in range(n)]
     ws = gen_weights(rng, n, wmode)
+    if i % 7 == 2:                       # tiny (but positive) weights: the mean does not depend on the scale of the weights
+      sc = 2.0 ** -rng.choice([20, 40, 60])
+      ws = [w * sc for w in ws]
     if i % 9 == 0 and n >= 2:           # a zero-weight client carrying large values
       ws[0] = 0.0
       if wmode == 'pow2':
         tot = sum(ws)
         if tot <= 0 or math.log2(tot) != int(math.log2(tot)):
-          ws[1] = ws[1] + (2 ** math.ceil(math.log2(tot)) - tot if tot > 0 else 1.0)
+          ws[1] = ws[1] + (2.0 ** math.ceil(math.log2(tot)) - tot if tot > 0 else 1.0)
       trees[0] = [v * 1024 for v in trees[0]]
     perm = list(range(n))
     rng.shuffle(perm)
@@ -477,6 +480,7 @@ def describe(case, obs):
   if case['kind'] in ('mean', 'agg'):
     ws = case['weights']
     d['weights'] = 'all-zero' if not any(ws) else 'some-zero' if 0 in ws else 'positive'
+    d['weight_scale'] = 'tiny' if 0 < sum(ws) < 1e-4 else 'normal'
     d['wtype'] = case['wtype']
   if case['kind'] == 'clip':
     d['clip'] = 'zero-tree' if case['norm'] == 0 else 'below' if case['norm'] < case['c'] else 'equal' if case['norm'] == case['c'] else 'above'
